@@ -611,6 +611,14 @@ func check(prop, tier string) int {
 			fmt.Fprintf(os.Stderr, "  %4dx %s\n        e.g. %s\n", cnt[k], k, d)
 		}
 		h := unknown[0]
+		if oc := os.Getenv("DSIM_ONLY_CLASS"); oc != "" { // triage aid: minimise the first violation of this class
+			for _, u := range unknown {
+				if u.v.Class == oc {
+					h = u
+					break
+				}
+			}
+		}
 		fmt.Fprintf(os.Stderr, "dsim: %d unlisted violation(s); first: class=%s key=%s\n  %s\n", len(unknown), h.v.Class, h.v.Key, h.v.Detail)
 		sc := *h.r.Scenario
 		if len(h.v.Pinned) > 0 {
